@@ -9,7 +9,8 @@ only = set(sys.argv[2:])          # optional: names of the changes to (re-)evalu
 CROSS = {"C02-r2-3": ["C04"], "C03-r2-2": ["C11"], "C08-r2-2": ["C09"], "C11-3": ["C04"], "C18-r2-1": ["C03"], "C17-r2-3": ["C09"],
          "C02-r2-2": ["C03"], "C03-3": ["C08"],
          "C02-r3-3": ["C09"], "C03-r3-2": ["C09"], "C03-r3-3": ["C04", "C11"], "C08-r3-3": ["C03"], "C18-r3-2": ["C03"],
-         "C11-r3-2": ["C09"], "C09-r3-2": ["C02"]}
+         "C11-r3-2": ["C09"], "C09-r3-2": ["C02"],
+         "C03-r4-1": ["C11"], "C08-r4-2": ["C09"], "C18-r4-2": ["C03"], "C17-r4-2": ["C09"], "C09-r4-2": ["C11"]}
 out = {}
 if only:
     out = json.load(open(os.path.join(VERIF, "seeded", "MATRIX.json")))
